@@ -404,3 +404,70 @@ func c04VariableLogic(c *Ctx, pkg string) {
 	c.Check("C04.R10", key, fn.Pos(), len(res.mismatches) == 0, fmt.Sprintf("fixed point over %d loop states, %d item observations, %d returns compared with the reference", res.states, res.iterations, res.returns),
 		"a variable route is not selected exactly when one of its and-groups of variable matchers holds ("+strings.Join(res.mismatches, "; ")+"): the route shadows later routes for requests it must not match, or is skipped for requests it must match")
 }
+
+// c04EveryHeaderConditionEvaluated (R7): a configured header condition is never skipped.
+// The conjunction matchers are all-of loops (R7 b). Clause: in commonHeaderMatcherImpl.Matches every path through the
+// loop body that goes on to the next condition (reaches the loop header again) has looked the header up in the request's
+// header map (`headers.Get`) and applied the condition's value matcher to what it found; likewise every variable of
+// httpHeaderMatcherImpl.Matches is read with variable.GetString and compared. A "match anything" shortcut that
+// `continue`s before the lookup also drops the requirement that the header is present - a request without the header
+// gets the route that demands it, ahead of the next route in configuration order.
+func c04EveryHeaderConditionEvaluated(c *Ctx, pkg string) {
+	for _, m := range []struct {
+		typ         string
+		lookup, cmp func(in ssa.Instruction) bool
+		what        string
+	}{
+		{"commonHeaderMatcherImpl",
+			func(in ssa.Instruction) bool {
+				call, ok := in.(*ssa.Call)
+				return ok && call.Common().IsInvoke() && call.Common().Method.Name() == "Get"
+			},
+			func(in ssa.Instruction) bool {
+				call, ok := in.(*ssa.Call)
+				return ok && methodName(call.Common()) == "Matches"
+			}, "headers.Get + Value.Matches"},
+		{"httpHeaderMatcherImpl",
+			func(in ssa.Instruction) bool {
+				call, ok := in.(*ssa.Call)
+				return ok && strings.HasSuffix(calleeName(call.Common()), "variable.GetString")
+			},
+			func(in ssa.Instruction) bool {
+				bo, ok := in.(*ssa.BinOp)
+				return ok && (bo.Op == token.EQL || bo.Op == token.NEQ) && strings.Contains(bo.X.Type().String(), "string")
+			}, "variable.GetString + comparison"},
+	} {
+		fn := c.M(pkg, m.typ, "Matches")
+		if fn == nil {
+			c.Unresolved("C04.R7", m.typ+".Matches")
+			continue
+		}
+		loops := naturalLoops(fn)
+		if len(loops) != 1 {
+			c.Unresolved("C04.R7", fmt.Sprintf("the single loop over the conditions of %s.Matches (found %d)", m.typ, len(loops)))
+			continue
+		}
+		var header *ssa.BasicBlock
+		var body map[*ssa.BasicBlock]bool
+		for h, b := range loops {
+			header, body = h, b
+		}
+		// paths header -> ... -> header (next item) that avoid the lookup, or avoid the comparison
+		skips := func(must func(ssa.Instruction) bool) ssa.Instruction {
+			for _, s := range header.Succs {
+				if !body[s] || s == header {
+					continue
+				}
+				if p := existsPathFrom(s, func(in ssa.Instruction) bool { return in.Block() == header }, must); p != nil {
+					return p
+				}
+			}
+			return nil
+		}
+		bad := skips(m.lookup)
+		if bad == nil {
+			bad = skips(m.cmp)
+		}
+		c.Check("C04.R7", funcKey(fn)+":every-condition-evaluated", fn.Pos(), bad == nil, "every iteration that goes on passes "+m.what, m.typ+".Matches can go on to the next condition without having looked the current one up and compared it: a configured condition (e.g. \"header X present\", written as regex .*) is skipped, so a request that does not satisfy it gets the route - ahead of the next route in configuration order, or instead of no route")
+	}
+}
